@@ -129,6 +129,28 @@ def oracle_linkpair(case):
                 out.append(('a link and its complement are not recognised as complements', True, False))
             if str(a) != sa:
                 out.append(('complement()/is_eql changed the link', sa, str(a)))
+            # the in-place form: the same link as complement(), and twice gives the link back
+            m = mk(case['a'])
+            m.make_complement()
+            if core_of(m) != core_of(ca):
+                out.append(('make_complement() does not turn the link into its complement', core_of(ca), core_of(m)))
+            m.make_complement()
+            if str(m) != sa:
+                out.append(('make_complement() twice is not the link', sa, str(m)))
+            # the canonical form is the link or its complement, and is the same for both
+            r1 = impl.outcome(lambda: mk(case['a']).canonicize())
+            r2 = impl.outcome(lambda: mk(case['a']).complement().canonicize())
+            if r1[0] != 'ok' or r2[0] != 'ok':
+                out.append(('canonicize() of a valid link raised', 'a link', impl.outcome_name(r1 if r1[0] != 'ok' else r2)))
+            else:
+                k1, k2 = r1[1], r2[1]
+                hairpin = case['a'][0] == case['a'][2] and case['a'][1] != case['a'][3]
+                if core_of(k1) != core_of(k2) and not hairpin:
+                    out.append(('a link and its complement have different canonical forms', core_of(k1), core_of(k2)))
+                if core_of(k1) not in (core_of(a), core_of(ca)):
+                    out.append(('the canonical form is neither the link nor its complement', core_of(a), core_of(k1)))
+                if not k1.is_canonical():
+                    out.append(('the canonical form is not canonical', True, False))
         except g.Error as e:
             out.append(('complement of a valid link raised', 'no error', type(e).__name__))
         if valid(case['b']) and case['a'][4] != '*' and case['b'][4] != '*':
